@@ -2,7 +2,7 @@ SPECIFICATION Spec
 CONSTANTS N = 3
  MaxCalls = 3
  WithList = FALSE
- FinalOccursCheck = TRUE
+ ExactOccursCheck = TRUE
 INVARIANT TypeOK
 INVARIANT Flat
 INVARIANT AcyclicOrRejected
